@@ -1409,3 +1409,114 @@ Lemma shared_store_breaks_client_auth :
     [ {| l_store := 0; l_acc := open_a |}; {| l_store := 1; l_acc := strict_a |} ]
     = [SrvAccept None; SrvReject].
 Proof. split; reflexivity. Qed.
+
+(* ------------------------------------------------------------------ configuration values are data *)
+Section ValueHistoryFacts.
+  Context {V S : Type}.
+  Variable vnew : V.
+  Variable vapp : V -> S -> V.
+  Let ev := veval vnew vapp.
+  Definition ev_store (st : @vstore (@vexpr S)) : @vstore V := map (fun p => (fst p, ev (snd p))) st.
+
+  Lemma vget_ev : forall st k, vget (ev_store st) k = option_map ev (vget st k).
+  Proof.
+    induction st as [|[j e] st IH]; intro k; simpl; [reflexivity|].
+    destruct (Nat.eqb k j); [reflexivity|apply IH].
+  Qed.
+  Lemma vdel_ev : forall st k, vdel (ev_store st) k = ev_store (vdel st k).
+  Proof.
+    induction st as [|[j e] st IH]; intro k; simpl; [reflexivity|].
+    destruct (Nat.eqb k j); simpl; [apply IH|now rewrite IH].
+  Qed.
+  Lemma vtake_ev : forall st k cl, vtake (ev_store st) k cl = ev_store (vtake st k cl).
+  Proof. intros st k [|]; simpl; [reflexivity|apply vdel_ev]. Qed.
+  Lemma vput_ev : forall st k e, vput (ev_store st) k (ev e) = ev_store (vput st k e).
+  Proof. intros. unfold vput. simpl. now rewrite vdel_ev. Qed.
+
+  Lemma vstep_run_ev : forall st x,
+    vstep_run vnew vapp (ev_store st) x =
+    (ev_store (fst (vstep_run XNew (@XSet S) st x)), map (option_map ev) (snd (vstep_run XNew (@XSet S) st x))).
+  Proof.
+    intros st [d|d s op cl|s cl|]; unfold vstep_run.
+    - cbn [fst snd map]. rewrite <- (vput_ev st d XNew). reflexivity.
+    - rewrite vget_ev. destruct (vget st s) as [e|]; cbn [option_map fst snd map]; [|reflexivity].
+      rewrite vtake_ev. rewrite <- (vput_ev _ d (XSet e op)). reflexivity.
+    - cbn [fst snd map]. now rewrite vtake_ev, vget_ev.
+    - reflexivity.
+  Qed.
+
+  (* Whatever the process does, in whatever order - values cloned, derived from values that were
+     already used, moved, used several times, other things happening in between -: every value
+     handed to tls_config is the evaluation of the chain of setter calls that made it, and of
+     nothing else *)
+  Theorem vrun_ev : forall h st,
+    vrun vnew vapp (ev_store st) h =
+    (ev_store (fst (vrun XNew (@XSet S) st h)), map (option_map ev) (snd (vrun XNew (@XSet S) st h))).
+  Proof.
+    induction h as [|x h IH]; intro st; simpl; [reflexivity|].
+    rewrite vstep_run_ev.
+    destruct (vstep_run XNew (@XSet S) st x) as [st1 u1]. simpl.
+    rewrite IH. destruct (vrun XNew (@XSet S) st1 h) as [st2 u2]. simpl.
+    now rewrite map_app.
+  Qed.
+
+  Theorem vuses_are_their_chains : forall h,
+    vuses vnew vapp h = map (option_map ev) (vuses XNew (@XSet S) h).
+  Proof. intro h. unfold vuses. change (@nil (nat * V)) with (ev_store []). now rewrite vrun_ev. Qed.
+
+  (* what else happens in the process is irrelevant to the values *)
+  Definition is_nop (x : @vstep S) : bool := match x with VNop => true | _ => false end.
+  Theorem vrun_nops_irrelevant : forall h st,
+    vrun vnew vapp st (filter (fun x => negb (is_nop x)) h) = vrun vnew vapp st h.
+  Proof.
+    induction h as [|x h IH]; intro st; simpl; [reflexivity|].
+    destruct x as [d|d s op cl|s cl|]; simpl; try (now rewrite IH).
+    - destruct (vget st s); now rewrite IH.
+    - rewrite IH. now destruct (vrun vnew vapp st h).
+  Qed.
+End ValueHistoryFacts.
+
+(* the servers of a process with calls in between are the uses of its value steps *)
+Lemma srv_history_servers : forall native h st servers,
+  fst (srv_history_run native st servers h) =
+  servers ++ snd (vrun server_tls_config_new apply_srv_setter st (sh_vals h)).
+Proof.
+  induction h as [|x h IH]; intros st servers; simpl; [now rewrite app_nil_r|].
+  destruct x as [v|k s hh c]; simpl.
+  - destruct (vstep_run server_tls_config_new apply_srv_setter st v) as [st' u] eqn:E.
+    rewrite IH. destruct (vrun _ _ st' (sh_vals h)) as [st2 u2]. simpl. now rewrite app_assoc.
+  - specialize (IH st servers).
+    destruct (srv_history_run native st servers h) as [sv os]. simpl in *.
+    destruct (vrun _ _ st (sh_vals h)) as [st2 u2]. simpl in *. exact IH.
+Qed.
+
+Theorem srv_history_servers_are_their_chains : forall native h,
+  fst (srv_history_run native [] [] h) =
+  map (option_map (veval server_tls_config_new apply_srv_setter))
+      (vuses XNew (@XSet _) (sh_vals h)).
+Proof.
+  intros native h. rewrite srv_history_servers. simpl.
+  exact (vuses_are_their_chains server_tls_config_new apply_srv_setter (sh_vals h)).
+Qed.
+
+Lemma cli_history_endpoints : forall native s hh h st eps,
+  fst (cli_history_run native s hh st eps h) =
+  eps ++ snd (vrun client_tls_config_new apply_cli_setter st (ch_vals h)).
+Proof.
+  induction h as [|x h IH]; intros st eps; simpl; [now rewrite app_nil_r|].
+  destruct x as [v|k srv]; simpl.
+  - destruct (vstep_run client_tls_config_new apply_cli_setter st v) as [st' u] eqn:E.
+    rewrite IH. destruct (vrun _ _ st' (ch_vals h)) as [st2 u2]. simpl. now rewrite app_assoc.
+  - specialize (IH st eps).
+    destruct (cli_history_run native s hh st eps h) as [sv os]. simpl in *.
+    destruct (vrun _ _ st (ch_vals h)) as [st2 u2]. simpl in *. exact IH.
+Qed.
+
+Theorem cli_history_endpoints_are_their_chains : forall native s hh h,
+  fst (cli_history_run native s hh [] [] h) =
+  map (option_map (veval client_tls_config_new apply_cli_setter))
+      (vuses XNew (@XSet _) (ch_vals h)).
+Proof.
+  intros native s hh h. rewrite cli_history_endpoints. simpl.
+  exact (vuses_are_their_chains client_tls_config_new apply_cli_setter (ch_vals h)).
+Qed.
